@@ -41,7 +41,10 @@ def check_table(ctx, texts, raw_table, tname, coq_ok, reps, shuffles):
     for _, q in texts:
         if K.has_raw_or_char(q):
             comp.setdefault(K.blank_raw_char(q), None)
-    res, err = K.run_expand(ctx, [q for _, q in texts] + list(comp), reps, shuffles, table=None if tname == "real" else raw_table, tag=tname)
+    # the process has used another table with the same names before (every definition different): the expansion is a
+    # function of the query and the table as it is now
+    pre = [(n, 'earlier.%s == "%s"' % (n.strip("_") or "m", n)) for n, _ in raw_table]
+    res, err = K.run_expand(ctx, [q for _, q in texts] + list(comp), reps, shuffles, table=None if tname == "real" else raw_table, tag=tname, pre=pre)
     if res is None:
         ctx.broken.append("K_expand(%s): harness failed: %s" % (tname, err[-300:]))
         return
